@@ -33,6 +33,9 @@ enum Unit {
     Dag { n: usize, prefix: Vec<POp> },
     Fan { w: usize },
     Tree { w: usize },
+    /// one node bound to two outputs with m others between (outputs as given,
+    /// repeats kept)
+    FarRepeat { m: usize },
 }
 
 fn units(tier: Tier) -> Vec<Unit> {
@@ -62,6 +65,9 @@ fn units(tier: Tier) -> Vec<Unit> {
     }
     for w in [1, 2, 3, 5, 12, 13, 14, 25, 40] {
         v.push(Unit::Tree { w });
+    }
+    for m in 1..=16 {
+        v.push(Unit::FarRepeat { m });
     }
     v
 }
@@ -149,6 +155,20 @@ fn check_program(
     all_pairs: bool,
     lens: &[usize],
 ) {
+    check_program_roots(cx, sub, p, point_vals, all_pairs, lens, false)
+}
+
+/// `raw_roots`: export exactly the program's output list (repeated bindings
+/// kept) instead of every non-constant node once
+fn check_program_roots(
+    cx: &mut Cx,
+    sub: &mut u64,
+    p: &Prog,
+    point_vals: &[f32],
+    all_pairs: bool,
+    lens: &[usize],
+    raw_roots: bool,
+) {
     let s = *sub;
     *sub += 1;
     if !cx.case(s) {
@@ -159,9 +179,13 @@ fn check_program(
     let mut ctx = Context::new();
     let all = p.build_all(&mut ctx);
     let mut roots = vec![];
-    for r in p.roots.iter().map(|r| all[*r]).chain(all.iter().cloned()) {
-        if !roots.contains(&r) {
-            roots.push(r);
+    if raw_roots {
+        roots = p.roots.iter().map(|r| all[*r]).collect();
+    } else {
+        for r in p.roots.iter().map(|r| all[*r]).chain(all.iter().cloned()) {
+            if !roots.contains(&r) {
+                roots.push(r);
+            }
         }
     }
     let flat = Flat::from_ctx(&ctx, &roots);
@@ -373,7 +397,7 @@ impl Check for C02 {
     }
     fn meta(&self, tier: Tier) -> Meta {
         Meta {
-            rule: "case = program with every non-constant node exported; programs: every opcode x operand form {reg/reg, same-reg, reg/imm, imm/reg} x (value alphabet V + op-specific boundary values)^2; every DAG up to the node bound over leaves {X,Y,2.5}, ops {neg,sub,min,add,sin}; fan families of width w (libm / atan2 / mod call-outs between live registers, w > 12 forces stack spills) and trees with up to 40 variables and 79 outputs; JIT point evaluator vs VM point evaluator at every point; JIT SIMD evaluator vs VM many-point evaluator for EVERY slice length 0..=35 with each input slice placed both right before and right after a PROT_NONE guard page; per-node comparison bit-identical, NaN = NaN, min/max of two zeros may differ in sign (dependants then excluded)".into(),
+            rule: "case = program with every non-constant node exported; programs: every opcode x operand form {reg/reg, same-reg, reg/imm, imm/reg} x (value alphabet V + op-specific boundary values)^2; every DAG up to the node bound over leaves {X,Y,2.5}, ops {neg,sub,min,add,sin}; fan families of width w (libm / atan2 / mod call-outs between live registers, w > 12 forces stack spills) and trees with up to 40 variables and 79 outputs; output lists in which one node is bound to two outputs with m = 1..16 other outputs between; JIT point evaluator vs VM point evaluator at every point; JIT SIMD evaluator vs VM many-point evaluator for EVERY slice length 0..=35 with each input slice placed both right before and right after a PROT_NONE guard page; per-node comparison bit-identical, NaN = NaN, min/max of two zeros may differ in sign (dependants then excluded)".into(),
             bounds: match tier {
                 Tier::Quick => "DAG nodes <= 3, fan width <= 16".into(),
                 Tier::Thorough => "DAG nodes <= 4, fan width <= 24, every unary opcode as the fan call-out".into(),
@@ -449,6 +473,12 @@ impl Check for C02 {
                             check_program(cx, &mut sub, &p, &generic, false, &lens);
                         }
                     }
+                }
+            }
+            Unit::FarRepeat { m } => {
+                for variant in 0..2 {
+                    let p = crate::c01::far_repeat_prog(m, variant);
+                    check_program_roots(cx, &mut sub, &p, &generic, false, &all_lens(), true);
                 }
             }
             Unit::Tree { w } => {
